@@ -7,6 +7,7 @@ import (
 	"context"
 	"fmt"
 	"math/rand"
+	"sort"
 	"time"
 
 	"google.golang.org/grpc/metadata"
@@ -162,15 +163,46 @@ func famIdentity(w *World, c *Case, rng *rand.Rand) {
 		}
 		specs = append(specs, s)
 	}
+	// a long-lived call whose stream context (already tagged with the tunnel that carries it) and
+	// the channels' own contexts serve as parent contexts of later calls, as in code that fans out
+	// from inside a tunnelled call: the later calls must report the tunnel that carries THEM
+	holder := &RPCSpec{ID: "holder", Method: "Bidi", ReqMD: genMD(rng, "req"), UseChanOpt: true,
+		Client:  []Op{{K: "open"}, {K: "chanctx"}, {K: "sync", Name: "hold-end"}, {K: "close"}, {K: "recvall"}},
+		Handler: []Op{{K: "ident"}, {K: "recvall"}, {K: "ret"}}}
+	w.Env.StartRPC(context.Background(), w.Ch, holder)
+	w.Advance(time.Millisecond)
+	parents := []context.Context{context.Background()}
+	if holder.stream != nil {
+		parents = append(parents, holder.stream.Context())
+	}
+	if w.TCh != nil {
+		parents = append(parents, w.TCh.Context())
+	}
+	var tids []string
+	for id := range tunnels {
+		tids = append(tids, id)
+	}
+	sort.Strings(tids)
+	for _, id := range tids {
+		if ti := tunnels[id]; ti.ch != nil {
+			parents = append(parents, ti.ch.Context())
+		}
+	}
 	// start them in concurrent batches
 	for i := 0; i < len(specs); {
 		b := 1 + rng.Intn(4)
 		for j := 0; j < b && i < len(specs); j++ {
-			w.Env.StartRPC(context.Background(), w.Ch, specs[i])
+			parent := context.Background()
+			if rng.Intn(2) == 0 {
+				parent = parents[rng.Intn(len(parents))]
+				w.Stat("identity_calls_with_derived_context", 1)
+			}
+			w.Env.StartRPC(parent, w.Ch, specs[i])
 			i++
 		}
 		w.Advance(time.Millisecond)
 	}
+	specs = append(specs, holder)
 	// an RPC with no request metadata at all (bare context, no credentials): its handler must see
 	// no request metadata - in particular not the tunnel-opening call's
 	before := len(w.Env.Log.Invocations)
@@ -179,6 +211,8 @@ func famIdentity(w *World, c *Case, rng *rand.Rand) {
 		bare.Client = []Op{{K: "open"}, {K: "send", N: 3}, {K: "close"}, {K: "recvall"}}
 	}
 	w.Env.StartRPC(context.Background(), w.Ch, bare)
+	w.Advance(time.Second)
+	w.Env.Signal("hold-end")
 	w.Advance(time.Second)
 	w.Env.Log.mu.Lock()
 	invs := append([]Invocation(nil), w.Env.Log.Invocations[before:]...)
